@@ -11,6 +11,7 @@ import (
 
 	proto "github.com/kubewharf/kubebrain-client/api/v2rpc"
 	"go.etcd.io/etcd/api/v3/etcdserverpb"
+	"go.etcd.io/etcd/api/v3/mvccpb"
 	"google.golang.org/grpc/metadata"
 
 	"github.com/kubewharf/kubebrain/pkg/backend"
@@ -147,23 +148,23 @@ func (w *world) request(tag string) {
 		del := &etcdserverpb.RequestOp{Request: &etcdserverpb.RequestOp_RequestDeleteRange{RequestDeleteRange: &etcdserverpb.DeleteRangeRequest{Key: k}}}
 		switch zzverif.Choose(tag+".shape", 4) {
 		case 0:
-			w.es.Txn(ctx, &etcdserverpb.TxnRequest{Compare: []*etcdserverpb.Compare{cmp}, Success: []*etcdserverpb.RequestOp{put}})
+			encodableTxn(w.es.Txn(ctx, &etcdserverpb.TxnRequest{Compare: []*etcdserverpb.Compare{cmp}, Success: []*etcdserverpb.RequestOp{put}}))
 		case 1:
-			w.es.Txn(ctx, &etcdserverpb.TxnRequest{Compare: []*etcdserverpb.Compare{cmp}, Success: []*etcdserverpb.RequestOp{put}, Failure: []*etcdserverpb.RequestOp{get}})
+			encodableTxn(w.es.Txn(ctx, &etcdserverpb.TxnRequest{Compare: []*etcdserverpb.Compare{cmp}, Success: []*etcdserverpb.RequestOp{put}, Failure: []*etcdserverpb.RequestOp{get}}))
 		case 2:
-			w.es.Txn(ctx, &etcdserverpb.TxnRequest{Compare: []*etcdserverpb.Compare{cmp}, Success: []*etcdserverpb.RequestOp{del}, Failure: []*etcdserverpb.RequestOp{get}})
+			encodableTxn(w.es.Txn(ctx, &etcdserverpb.TxnRequest{Compare: []*etcdserverpb.Compare{cmp}, Success: []*etcdserverpb.RequestOp{del}, Failure: []*etcdserverpb.RequestOp{get}}))
 		default:
-			w.es.Txn(ctx, &etcdserverpb.TxnRequest{Success: []*etcdserverpb.RequestOp{get, del}})
+			encodableTxn(w.es.Txn(ctx, &etcdserverpb.TxnRequest{Success: []*etcdserverpb.RequestOp{get, del}}))
 		}
 	case 11:
 		// structurally odd transactions: missing sub-messages
 		switch zzverif.Choose(tag+".odd", 3) {
 		case 0:
-			w.es.Txn(ctx, &etcdserverpb.TxnRequest{})
+			encodableTxn(w.es.Txn(ctx, &etcdserverpb.TxnRequest{}))
 		case 1:
-			w.es.Txn(ctx, &etcdserverpb.TxnRequest{Compare: []*etcdserverpb.Compare{{}}, Success: []*etcdserverpb.RequestOp{{}}})
+			encodableTxn(w.es.Txn(ctx, &etcdserverpb.TxnRequest{Compare: []*etcdserverpb.Compare{{}}, Success: []*etcdserverpb.RequestOp{{}}}))
 		default:
-			w.es.Txn(ctx, &etcdserverpb.TxnRequest{Compare: []*etcdserverpb.Compare{{Target: etcdserverpb.Compare_MOD}}, Success: []*etcdserverpb.RequestOp{{}}, Failure: []*etcdserverpb.RequestOp{{}}})
+			encodableTxn(w.es.Txn(ctx, &etcdserverpb.TxnRequest{Compare: []*etcdserverpb.Compare{{Target: etcdserverpb.Compare_MOD}}, Success: []*etcdserverpb.RequestOp{{}}, Failure: []*etcdserverpb.RequestOp{{}}}))
 		}
 	case 12:
 		r := &etcdserverpb.RangeRequest{Key: k, Revision: rev, Limit: zzverif.I64(tag + ".limit")}
@@ -173,7 +174,7 @@ func (w *world) request(tag string) {
 		case 2:
 			r.RangeEnd, r.CountOnly = key(tag+".end"), true
 		}
-		w.es.Range(ctx, r)
+		encodableRange(w.es.Range(ctx, r))
 	case 14:
 		// the lease and cluster handlers of the etcd API (answered without touching the backend)
 		switch zzverif.Choose(tag+".misc", 6) {
@@ -367,4 +368,44 @@ func VerifC20Concurrent() {
 	cr, err := w.bs.Create(ctx, &proto.CreateRequest{Key: []byte("/r/fresh"), Value: []byte("v")})
 	zzverif.Assert(err == nil && cr.Succeeded, "a later create still succeeds")
 	zzverif.Cover("done")
+}
+
+// What a handler returns is encoded by gRPC after the handler has returned, outside anything the
+// handler could recover: a nil element in a repeated message field makes the generated encoder
+// dereference nil and the process dies. Every answer must be encodable (natively it is encoded).
+func encodableKvs(kvs []*mvccpb.KeyValue) {
+	for _, kv := range kvs {
+		zzverif.Assert(kv != nil, "an answer holds no nil key-value (gRPC's encoder would crash the process)")
+	}
+}
+
+func encodableRange(r *etcdserverpb.RangeResponse, err error) {
+	if err != nil || r == nil {
+		return
+	}
+	encodableKvs(r.Kvs)
+	if !zzverif.Symbolic() {
+		r.Marshal()
+	}
+}
+
+func encodableTxn(r *etcdserverpb.TxnResponse, err error) {
+	if err != nil || r == nil {
+		return
+	}
+	for _, op := range r.Responses {
+		zzverif.Assert(op != nil, "an answer holds no nil response op (gRPC's encoder would crash the process)")
+		if op == nil {
+			continue
+		}
+		if rr := op.GetResponseRange(); rr != nil {
+			encodableKvs(rr.Kvs)
+		}
+		if dr := op.GetResponseDeleteRange(); dr != nil {
+			encodableKvs(dr.PrevKvs)
+		}
+	}
+	if !zzverif.Symbolic() {
+		r.Marshal()
+	}
 }
